@@ -19,17 +19,20 @@ t=re.search(r\"-run[ =]+'?([A-Za-z0-9_|^$]+)'?\", c)
 p=re.findall(r'\./(?:cmd|internal|pkg)[A-Za-z0-9_/.-]*', c)
 print(t.group(1) if t else 'NONE', p[-1].rstrip('/') if p else 'NONE', 'verif' if '-tags verif' in c else '-')")
 [ "$tname" != NONE ] && [ "$pkg" != NONE ] || { echo "CANNOT PARSE demo_cmd"; exit 2; }
-for f in "$d"/*_test.go; do [ -e "$f" ] && cp "$f" "$wt/$pkg/"; done
+putdemo() { for f in "$d"/*_test.go; do [ -e "$f" ] && cp "$f" "$wt/$pkg/"; done; }
+rmdemo() { for f in "$d"/*_test.go; do [ -e "$f" ] && rm -f "$wt/$pkg/$(basename "$f")"; done; }
 tagarg=""; [ "$tags" = verif ] && tagarg="-tags verif"
 cmd="go test $tagarg -vet=off -count=1 -run '$tname' $pkg/ < /dev/null"
 cd "$wt"
+putdemo
 if ! bash -c "$cmd" >/tmp/cf.$$ 2>&1; then echo "DEMO FAILS WITHOUT THE CHANGE"; tail -8 /tmp/cf.$$; rm -f /tmp/cf.$$; exit 3; fi
+rmdemo
 if ! git apply "$d/patch.diff"; then echo "PATCH DOES NOT APPLY"; exit 3; fi
-if ! (go build ./... && go test -vet=off -count=1 $(go list ./... | grep -v zzdemo) >/tmp/cf.$$ 2>&1); then
-  # the demo itself lives in a package of the suite: exclude it by name
-  if grep -q "^--- FAIL" /tmp/cf.$$ && ! grep "^--- FAIL" /tmp/cf.$$ | grep -qv -i "demo"; then :; else
-    echo "BASELINE FAILS WITH THE CHANGE"; grep -E "^(--- FAIL|FAIL|panic)" /tmp/cf.$$ | head -5; rm -f /tmp/cf.$$; exit 3; fi
+# the unedited baseline suite, without the demonstration in the tree
+if ! (go build ./... && go test -vet=off -count=1 ./... >/tmp/cf.$$ 2>&1); then
+  echo "BASELINE FAILS WITH THE CHANGE"; grep -E "^(--- FAIL|FAIL|panic)" /tmp/cf.$$ | head -5; rm -f /tmp/cf.$$; exit 3
 fi
+putdemo
 if bash -c "$cmd" >/tmp/cf.$$ 2>&1; then echo "DEMO PASSES WITH THE CHANGE"; rm -f /tmp/cf.$$; exit 3; fi
-echo "CONFIRMED: $(grep -m1 -E '^\s*(--- FAIL|FAIL|panic)' /tmp/cf.$$ | cut -c1-120)"
+echo "CONFIRMED: $(grep -m1 -E '(--- FAIL|^FAIL|^panic)' /tmp/cf.$$ | cut -c1-120)"
 rm -f /tmp/cf.$$
